@@ -28,6 +28,7 @@ import (
 )
 
 type pend struct {
+	raw   string
 	line  string
 	ev    gen.Event
 	isEv  bool
@@ -70,7 +71,7 @@ func (g *gate) add(p *pend) {
 
 func (g *gate) Write(b []byte) (int, error) {
 	line := strings.TrimSuffix(string(b), "\n")
-	p := &pend{line: line, ch: make(chan struct{})}
+	p := &pend{raw: string(b), line: line, ch: make(chan struct{})}
 	p.ev, p.isEv = gen.ParseEvent(line)
 	g.add(p)
 	return len(b), nil
